@@ -5,6 +5,8 @@
   the seed is observed by the harness, not proved.
 -/
 import Robotools.Model.Transform
+import Robotools.Props.C08
+import Robotools.Proofs.TransformLemmas
 namespace Robotools.C15
 open Robotools
 
@@ -12,55 +14,163 @@ open Robotools
 theorem shift_offset (rA cA rB cB : Nat) (anchor : String) (s : Shifter) (w : String) (r c : Nat)
     (hB : rB ≤ 26) (hs : Shifter.mk? rA cA rB cB anchor = .ok s) (hw : indexOf rA cA w = some (r, c)) :
     s.shift1 w = .ok (wellId (r + s.dr) (c + s.dc)) ∧ indexOf rB cB anchor = some (s.dr, s.dc) := by
-  sorry
+  obtain ⟨dr, dc, hidx, h1, h2, rfl⟩ := Shifter.mk?_ok hs
+  obtain ⟨_, hr, hr26, hc⟩ := indexOf_some hw
+  refine ⟨?_, hidx⟩
+  have hwa := wellAt_of_nat (R := rB) (C := cB) (i := (r : Int) + (dr : Int)) (j := (c : Int) + (dc : Int))
+    (r := r + dr) (c := c + dc) (by omega) (by omega) (by omega) (by omega) (by omega)
+  unfold Shifter.shift1
+  simp only [hw, hwa]
 
 /-- The shift is refused exactly when the anchor is unknown or the source plate does not fit. -/
 theorem shift_refused_iff (rA cA rB cB : Nat) (anchor : String) :
     (∃ e, Shifter.mk? rA cA rB cB anchor = .error e) ↔
       (indexOf rB cB anchor = none ∨ ∃ dr dc, indexOf rB cB anchor = some (dr, dc) ∧ (rB < rA + dr ∨ cB < cA + dc)) := by
-  sorry
+  unfold Shifter.mk?
+  cases h : indexOf rB cB anchor with
+  | none => simp
+  | some p =>
+    obtain ⟨dr, dc⟩ := p
+    simp only [reduceCtorEq, false_or, Option.some.injEq, Prod.mk.injEq]
+    constructor
+    · rintro ⟨e, he⟩
+      refine ⟨dr, dc, ⟨rfl, rfl⟩, ?_⟩
+      by_cases h1 : rB < rA + dr
+      · exact Or.inl h1
+      · by_cases h2 : cB < cA + dc
+        · exact Or.inr h2
+        · rw [if_neg h1, if_neg h2] at he; cases he
+    · rintro ⟨dr', dc', ⟨rfl, rfl⟩, h12⟩
+      by_cases h1 : rB < rA + dr
+      · exact ⟨_, by rw [if_pos h1]⟩
+      · have h2 : cB < cA + dc := by omega
+        exact ⟨_, by rw [if_neg h1, if_pos h2]⟩
 
 /-- shift and unshift are mutually inverse. -/
 theorem unshift_shift (rA cA rB cB : Nat) (anchor : String) (s : Shifter) (w x : String)
     (hA : rA ≤ 26) (hB : rB ≤ 26) (hs : Shifter.mk? rA cA rB cB anchor = .ok s) (h : s.shift1 w = .ok x) :
     s.unshift1 x = .ok w := by
-  sorry
+  cases hw : indexOf rA cA w with
+  | none =>
+    obtain ⟨dr, dc, hidx, h1, h2, rfl⟩ := Shifter.mk?_ok hs
+    unfold Shifter.shift1 at h
+    simp only [hw] at h
+    cases h
+  | some p =>
+    obtain ⟨r, c⟩ := p
+    have hso := (shift_offset rA cA rB cB anchor s w r c hB hs hw).1
+    rw [hso] at h
+    obtain ⟨dr, dc, hidx, h1, h2, rfl⟩ := Shifter.mk?_ok hs
+    obtain ⟨rfl, hr, hr26, hc⟩ := indexOf_some hw
+    cases h
+    have hix := indexOf_wellId (R := rB) (C := cB) (r := r + dr) (c := c + dc) hB (by omega) (by omega)
+    have hwa := wellAt_of_nat (R := rA) (C := cA) (i := ((r + dr : Nat) : Int) - (dr : Int))
+      (j := ((c + dc : Nat) : Int) - (dc : Int))
+      (r := r) (c := c) (by omega) (by omega) (by omega) (by omega) (by omega)
+    unfold Shifter.unshift1
+    simp only [hix, hwa]
 
 theorem shift_unshift (rA cA rB cB : Nat) (anchor : String) (s : Shifter) (w x : String) (r c : Nat)
     (hA : rA ≤ 26) (hB : rB ≤ 26) (hs : Shifter.mk? rA cA rB cB anchor = .ok s)
     (hx : indexOf rB cB x = some (r, c)) (hr : s.dr ≤ r) (hc : s.dc ≤ c) (h : s.unshift1 x = .ok w) :
     s.shift1 w = .ok x := by
-  sorry
+  obtain ⟨dr, dc, hidx, h1, h2, rfl⟩ := Shifter.mk?_ok hs
+  simp only at hr hc
+  obtain ⟨rfl, hrB, hr26, hcB⟩ := indexOf_some hx
+  unfold Shifter.unshift1 at h
+  simp only [hx] at h
+  cases hwa : wellAt rA cA ((r : Int) - (dr : Int)) ((c : Int) - (dc : Int)) with
+  | none => rw [hwa] at h; cases h
+  | some y =>
+    rw [hwa] at h
+    cases h
+    obtain ⟨rfl, hr', hr26', hc'⟩ := wellAt_some (by omega) (by omega) hwa
+    have e1 : ((r : Int) - (dr : Int)).toNat = r - dr := by omega
+    have e2 : ((c : Int) - (dc : Int)).toNat = c - dc := by omega
+    rw [e1, e2] at *
+    have hix := indexOf_wellId (R := rA) (C := cA) (r := r - dr) (c := c - dc) hA (by omega) (by omega)
+    have hwb := wellAt_of_nat (R := rB) (C := cB) (i := ((r - dr : Nat) : Int) + (dr : Int))
+      (j := ((c - dc : Nat) : Int) + (dc : Int))
+      (r := r) (c := c) (by omega) (by omega) (by omega) (by omega) (by omega)
+    unfold Shifter.shift1
+    simp only [hix, hwb]
 
 /-- A clockwise rotation maps (r, c) to (c, R-1-r) of the transposed plate. -/
 theorem rotate_cw_formula (R C : Nat) (w : String) (r c : Nat) (hR : R ≤ 26) (hC : C ≤ 26)
     (hw : indexOf R C w = some (r, c)) : rotateCw1 R C w = .ok (wellId c (R - 1 - r)) := by
-  sorry
+  obtain ⟨_, hr, hr26, hc⟩ := indexOf_some hw
+  have hwa := wellAt_of_nat (R := C) (C := R) (i := (c : Int)) (j := (R : Int) - (r : Int) - 1)
+    (r := c) (c := R - 1 - r) rfl (by omega) (by omega) (by omega) (by omega)
+  unfold rotateCw1
+  simp only [hw, hwa]
 
 theorem rotate_ccw_formula (R C : Nat) (w : String) (r c : Nat) (hR : R ≤ 26) (hC : C ≤ 26)
     (hw : indexOf R C w = some (r, c)) : rotateCcw1 R C w = .ok (wellId (C - 1 - c) r) := by
-  sorry
+  obtain ⟨_, hr, hr26, hc⟩ := indexOf_some hw
+  have hwa := wellAt_of_nat (R := C) (C := R) (i := (C : Int) - (c : Int) - 1) (j := (r : Int))
+    (r := C - 1 - c) (c := r) (by omega) rfl (by omega) (by omega) (by omega)
+  unfold rotateCcw1
+  simp only [hw, hwa]
+
+private theorem cw_ok (R C : Nat) (w x : String) (hR : R ≤ 26) (hC : C ≤ 26)
+    (h : rotateCw1 R C w = .ok x) :
+    ∃ r c, indexOf R C w = some (r, c) ∧ r < R ∧ c < C ∧ w = wellId r c ∧ x = wellId c (R - 1 - r) := by
+  cases hw : indexOf R C w with
+  | none => unfold rotateCw1 at h; simp only [hw] at h; cases h
+  | some p =>
+    obtain ⟨r, c⟩ := p
+    rw [rotate_cw_formula R C w r c hR hC hw] at h
+    cases h
+    obtain ⟨hwe, hr, _, hc⟩ := indexOf_some hw
+    exact ⟨r, c, rfl, hr, hc, hwe, rfl⟩
+
+private theorem ccw_ok (R C : Nat) (w x : String) (hR : R ≤ 26) (hC : C ≤ 26)
+    (h : rotateCcw1 R C w = .ok x) :
+    ∃ r c, indexOf R C w = some (r, c) ∧ r < R ∧ c < C ∧ w = wellId r c ∧ x = wellId (C - 1 - c) r := by
+  cases hw : indexOf R C w with
+  | none => unfold rotateCcw1 at h; simp only [hw] at h; cases h
+  | some p =>
+    obtain ⟨r, c⟩ := p
+    rw [rotate_ccw_formula R C w r c hR hC hw] at h
+    cases h
+    obtain ⟨hwe, hr, _, hc⟩ := indexOf_some hw
+    exact ⟨r, c, rfl, hr, hc, hwe, rfl⟩
 
 /-- Rotating clockwise and then counter-clockwise (on the transposed plate) is the identity, and vice versa. -/
 theorem ccw_cw (R C : Nat) (w x : String) (hR : R ≤ 26) (hC : C ≤ 26)
     (h : rotateCw1 R C w = .ok x) : rotateCcw1 C R x = .ok w := by
-  sorry
+  obtain ⟨r, c, hw, hr, hc, rfl, rfl⟩ := cw_ok R C w x hR hC h
+  rw [rotate_ccw_formula C R _ c (R - 1 - r) hC hR (indexOf_wellId hC hc (by omega))]
+  have : R - 1 - (R - 1 - r) = r := by omega
+  rw [this]
 
 theorem cw_ccw (R C : Nat) (w x : String) (hR : R ≤ 26) (hC : C ≤ 26)
     (h : rotateCcw1 R C w = .ok x) : rotateCw1 C R x = .ok w := by
-  sorry
+  obtain ⟨r, c, hw, hr, hc, rfl, rfl⟩ := ccw_ok R C w x hR hC h
+  rw [rotate_cw_formula C R _ (C - 1 - c) r hC hR (indexOf_wellId hC (by omega) hr)]
+  have : C - 1 - (C - 1 - c) = c := by omega
+  rw [this]
 
 /-- Four clockwise rotations are the identity. -/
 theorem cw_four (R C : Nat) (w a b c : String) (hR : R ≤ 26) (hC : C ≤ 26)
     (h1 : rotateCw1 R C w = .ok a) (h2 : rotateCw1 C R a = .ok b) (h3 : rotateCw1 R C b = .ok c) :
     rotateCw1 C R c = .ok w := by
-  sorry
+  obtain ⟨r, c', hw, hr, hc, rfl, rfl⟩ := cw_ok R C w a hR hC h1
+  rw [rotate_cw_formula C R _ c' (R - 1 - r) hC hR (indexOf_wellId hC hc (by omega))] at h2
+  cases h2
+  rw [rotate_cw_formula R C _ (R - 1 - r) (C - 1 - c') hR hC (indexOf_wellId hR (by omega) (by omega))] at h3
+  cases h3
+  rw [rotate_cw_formula C R _ (C - 1 - c') (R - 1 - (R - 1 - r)) hC hR
+    (indexOf_wellId hC (by omega) (by omega))]
+  have e1 : R - 1 - (R - 1 - r) = r := by omega
+  have e2 : C - 1 - (C - 1 - c') = c' := by omega
+  rw [e1, e2]
 
 /-- Every well of the plate can be rotated (totality on the plate), so rotation is a bijection
     between the wells of the R×C plate and those of the C×R plate (with `ccw_cw`, `cw_ccw`). -/
 theorem rotate_total (R C : Nat) (r c : Nat) (hR : R ≤ 26) (hC : C ≤ 26) (hr : r < R) (hc : c < C) :
     ∃ x, rotateCw1 R C (wellId r c) = .ok x ∧ ∃ r' c', r' < C ∧ c' < R ∧ x = wellId r' c' := by
-  sorry
+  refine ⟨_, rotate_cw_formula R C _ r c hR hC (indexOf_wellId hR hr hc), c, R - 1 - r, hc, by omega, rfl⟩
 
 /-- Element-wise transforms preserve the shape of the array they are given. -/
 theorem mapM_shape {α β : Type} (f : α → Except Err β) (a : Arr α) (b : Arr β) (h : Arr.mapM? f a = .ok b) :
@@ -69,31 +179,62 @@ theorem mapM_shape {α β : Type} (f : α → Except Err β) (a : Arr α) (b : A
      | .vec l, .vec l' => l.length = l'.length
      | .mat r c l, .mat r' c' l' => r = r' ∧ c = c' ∧ l.length = l'.length
      | _, _ => False) := by
-  sorry
+  cases a with
+  | scalar x =>
+    simp only [Arr.mapM?] at h
+    cases hf : f x with
+    | error e => rw [hf] at h; cases h
+    | ok y => rw [hf] at h; cases h; trivial
+  | vec l =>
+    simp only [Arr.mapM?] at h
+    cases hf : l.mapM f with
+    | error e => rw [hf] at h; cases h
+    | ok l' => rw [hf] at h; cases h; exact mapM_except_length f l l' hf
+  | mat r c l =>
+    simp only [Arr.mapM?] at h
+    cases hf : l.mapM f with
+    | error e => rw [hf] at h; cases h
+    | ok l' => rw [hf] at h; cases h; exact ⟨rfl, rfl, mapM_except_length f l l' hf⟩
 
 /-- Randomisation with ANY permutation `rand` of the duplicate-free well list `orig`:
     derandomize ∘ randomize = id and randomize ∘ derandomize = id on the plate. -/
 theorem derandomize_randomize (orig rand : List String) (w : String)
     (hnd : orig.Nodup) (hp : rand.Perm orig) (hw : w ∈ orig) :
     ∃ x, randomize1 orig rand w = some x ∧ x ∈ orig ∧ derandomize1 orig rand x = some w := by
-  sorry
+  obtain ⟨i, hi, rfl⟩ := List.getElem_of_mem hw
+  have hlen : rand.length = orig.length := hp.length_eq
+  have hi' : i < rand.length := by omega
+  have hndr : rand.Nodup := hp.nodup_iff.2 hnd
+  refine ⟨rand[i], lookup_zip_getElem orig rand i hi hi' hnd, hp.mem_iff.1 (List.getElem_mem _), ?_⟩
+  exact lookup_zip_getElem rand orig i hi' hi hndr
 
 theorem randomize_derandomize (orig rand : List String) (x : String)
     (hnd : orig.Nodup) (hp : rand.Perm orig) (hx : x ∈ orig) :
     ∃ w, derandomize1 orig rand x = some w ∧ w ∈ orig ∧ randomize1 orig rand w = some x := by
-  sorry
+  have hx' : x ∈ rand := hp.mem_iff.2 hx
+  obtain ⟨i, hi', rfl⟩ := List.getElem_of_mem hx'
+  have hlen : rand.length = orig.length := hp.length_eq
+  have hi : i < orig.length := by omega
+  have hndr : rand.Nodup := hp.nodup_iff.2 hnd
+  refine ⟨orig[i], lookup_zip_getElem rand orig i hi' hi hndr, List.getElem_mem _, ?_⟩
+  exact lookup_zip_getElem orig rand i hi hi' hnd
 
 /-- Randomisation is injective on the plate (a permutation of the plate). -/
 theorem randomize_injective (orig rand : List String) (w₁ w₂ x : String)
     (hnd : orig.Nodup) (hp : rand.Perm orig) (h₁ : randomize1 orig rand w₁ = some x) (h₂ : randomize1 orig rand w₂ = some x) :
     w₁ = w₂ := by
-  sorry
+  have hndr : rand.Nodup := hp.nodup_iff.2 hnd
+  obtain ⟨i, hi1, hi2, rfl, hxi⟩ := lookup_zip_some h₁
+  obtain ⟨j, hj1, hj2, rfl, hxj⟩ := lookup_zip_some h₂
+  have : i = j := (hndr.getElem_inj_iff).1 (hxi.trans hxj.symm)
+  subst this
+  rfl
 
 /-- Whatever relation holds position-wise between `orig` and `rand` (same row in row mode, same
     column in column mode) holds between every well and its image. -/
 theorem randomize_keeps (orig rand : List String) (Rel : String → String → Prop)
     (hrel : ∀ p ∈ orig.zip rand, Rel p.1 p.2) (w x : String) (h : randomize1 orig rand w = some x) : Rel w x := by
-  sorry
+  exact hrel (w, x) (mem_of_lookup_eq_some h)
 
 example : (rotateCw1 2 3 "A01").toOption = some "A02" := by decide +kernel
 example : (Shifter.mk? 2 2 4 4 "B02").toOption.map (fun s => (s.dr, s.dc)) = some (1, 1) := by decide +kernel
